@@ -22,7 +22,7 @@ theorem phaseJ0_12 (r : Routine) (ps : PrefixSlices r) (hl : findPc r 4841 = som
     (g15 : greg s2 15 = 73014444032) (hn : nonce.length = 12) (hnb : ∀ x ∈ nonce, x < 2 ^ 8) (hnp : np + 16 < 2 ^ 63) :
     ∃ s3, Reach r 628 s2 823 s3 15 ∧ PCtx s3 ∧ FEnv s3 rk np tp ap nonce aad ∧ GhCtx h s3 ∧ greg s3 15 = 73014444032 ∧
       vreg s3 14 = unlanes 8 (nonce ++ [0, 0, 0, 1]) ∧ vreg s3 6 = unlanes 8 (nonce ++ [0, 0, 0, 1]) ∧ greg s3 6 = tp ∧
-      s3.mem = s2.mem := by
+      (s3.mem = s2.mem ∧ s3.frame = s2.frame) := by
   -- the three arguments
   let sa1 := setGreg s2 12 np
   let sa2 := setGreg sa1 11 nonce.length
@@ -72,7 +72,7 @@ theorem phaseJ0_12 (r : Routine) (ps : PrefixSlices r) (hl : findPc r 4841 = som
   have rc : Reach r 814 sb2 823 sc 9 :=
     (reach_seg (ps.j0.sub 183 mkCtrCode j0_tail (by rw [j0_len]; decide)) (by rfl) hxc).cast (by rfl) rfl
   refine ⟨sc, (((ra.trans rb).trans rj).trans rc).cast rfl rfl, pb.of_keeps kc (by decide), eb.of_keeps kc, ?_, ?_, v14, v6, ?_,
-    (kc.mem.trans kb.mem).trans ka.mem⟩
+    ⟨(kc.mem.trans kb.mem).trans ka.mem, (kc.frame.trans kb.frame).trans ka.frame⟩⟩
   · exact ((gc.of_keeps ka (by decide)).of_keeps kb (by decide)).of_keeps kc (by decide)
   · rw [kc.g 15 (by decide), kb.g 15 (by decide), ka.g 15 (by decide)]; exact g15
   · rw [kc.g 6 (by decide), kb.g 6 (by decide)]; exact g6
